@@ -918,12 +918,13 @@ func (nr *netRun) checkC08(x *xfer) {
 						pausedAt = -1
 						continue
 					}
-					// F14: a restart request validated *before* the limit was reached (decision: not paused) and carried out after it
+					// F14: a restart request validated *before* the limit was reached (decision: not paused); the request it opens
+					// afterwards runs un-paused - the pause signal went to a block report of the request being replaced
 					cause := ""
 					for _, vc := range b.ValCalls {
 						if vc.ChID == x.chid && vc.Kind == "restart" && vc.Life == life && vc.Step < pausedAt {
 							for _, tc := range b.TpCalls {
-								if tc.Kind == "open" && tc.Restart && tc.ChID == x.chid && tc.Life == life && tc.Done > pausedLB && tc.Step < e.Step {
+								if tc.Kind == "open" && tc.Restart && tc.ChID == x.chid && tc.Life == life && tc.Step > vc.Step && tc.Step < e.Step {
 									cause = "|restart-validated-before-the-limit-was-reached-and-carried-out-after"
 								}
 							}
